@@ -12,23 +12,44 @@ def rels (r : Ring) : Nat → Ring
   | 0 => r
   | k+1 => rels (release r) k
 
+/-- atomic accesses of one acquire call: tail load, head load, then the stores of the branch taken -/
+def events (before : Ring) (tl : Nat) (res : Res) : String :=
+  match res with
+  | .invalid => "-"
+  | .oom => "LtLh"
+  | .ok _ _ => if before.head = tl then "LtLhShSt" else "LtLhSh"
+
+/-- `k` releases injected before atomic access number `p` of the call: `p = 0` is before the tail load (the acquirer
+sees them), `p ≥ 1` is after it (the acquirer decides on the stale tail; the releases only store `tail`, which the
+acquirer no longer reads, so their position behind the tail load does not matter). -/
+def doAcquire (r : Ring) (k p : Nat) (argsInvalid : Bool) (f : Ring → Nat → Ring × Res) : Ring × List String :=
+  if argsInvalid then
+    -- the argument check precedes every atomic access; pending releases happen after the call
+    let (r', res) := f r r.tail
+    let r'' := rels r' k
+    (r'', [s!"W ev={events r r.tail res}"] ++ showRes res ++ [s!"P outstanding={r''.out.length}"])
+  else
+    let r0 := if p = 0 then rels r k else r
+    let tl := r0.tail
+    let r1 := if p = 0 then r0 else rels r0 k
+    let (r', res) := f r1 tl
+    (r', [s!"W ev={events r1 tl res}"] ++ showRes res ++ [s!"P outstanding={r'.out.length}"])
+
 def step (s : Option Ring) (t : List String) : Option Ring × List String :=
   match s, t with
   | _, ["init", n] => match parseSize? n with
     | some n => (some (init n), [])
     | none => (s, ["bad-op"])
-  | some r, ["acq", k, q] => match k.toNat?, parseSize? q with
-    | some k, some q =>
-      let tl := r.tail
-      let (r', res) := acquireWith (if q = 0 then r else rels r k) tl q
-      (some r', showRes res ++ [s!"P outstanding={r'.out.length}"])
-    | _, _ => (s, ["bad-op"])
-  | some r, ["upto", k, m, q] => match k.toNat?, parseSize? m, parseSize? q with
-    | some k, some m, some q =>
-      let tl := r.tail
-      let (r', res) := acquireUpToWith (if q = 0 ∨ m = 0 then r else rels r k) tl m q
-      (some r', showRes res ++ [s!"P outstanding={r'.out.length}"])
+  | some r, ["acq", k, p, q] => match k.toNat?, p.toNat?, parseSize? q with
+    | some k, some p, some q =>
+      let (r', ls) := doAcquire r k p (q = 0) (fun r t => acquireWith r t q)
+      (some r', ls)
     | _, _, _ => (s, ["bad-op"])
+  | some r, ["upto", k, p, m, q] => match k.toNat?, p.toNat?, parseSize? m, parseSize? q with
+    | some k, some p, some m, some q =>
+      let (r', ls) := doAcquire r k p (q = 0 ∨ m = 0) (fun r t => acquireUpToWith r t m q)
+      (some r', ls)
+    | _, _, _, _ => (s, ["bad-op"])
   | some r, ["rel"] => let r' := release r; (some r', [s!"P outstanding={r'.out.length}"])
   | _, _ => (s, ["bad-op"])
 
